@@ -182,6 +182,201 @@ def directed():
     return out
 
 
+def _B(base, last, present=None, fmt="v2", codec=0):
+    return {"base": base, "last": last, "present": list(range(base, last + 1)) if present is None else present, "fmt": fmt, "codec": codec}
+
+
+# faults after which the Reader has to make a new connection (reader.run: NotLeaderForPartition, UnknownTopicOrPartition,
+# a connection lost before / inside the answer); "leader": the partition moves to the other broker (the old one answers 6).
+# err5 (LeaderNotAvailable, like every other broker error) is handed to the application as the result of one call and the
+# fetch is retried on the same connection.
+RECONNECT = {"err6": {"kind": "err", "code": 6}, "err3": {"kind": "err", "code": 3},
+             "cut0": {"kind": "cut", "batches": 0, "records": 0, "extra": 0}, "cut1": {"kind": "cut", "batches": 0, "records": 1, "extra": 3},
+             "leader": None, "err5": {"kind": "err", "code": 5}}
+
+
+def _trig(req, fault=None, batch=None, **kw):
+    t = dict({"req": req}, **kw)
+    if batch is not None:
+        t["batch"] = batch
+    if fault == "leader":
+        t["leader"] = 2
+    elif fault:
+        t["fault"] = RECONNECT.get(fault, fault) if isinstance(fault, str) else fault
+    return t
+
+
+def positioned_scripts(tier):
+    """Symbolic start positions while the log grows: the Reader is positioned at LastOffset (before its first call, or by
+    SetOffset in the middle of a run), the broker appends when the k-th ListOffsets / Fetch request of that reader arrives
+    (right after the position was resolved, or together with the fault), and a reconnect-forcing fault hits the 1st / 2nd /
+    k-th fetch: before anything was delivered from the new position, or after.  What has to be delivered (everything from
+    the offset LastOffset meant when the reader was positioned) is decided by FetchMon from the recorded ListOffsets answer;
+    the call counts below only pace the application (no final 6 s drain: a stall shows as a timed-out call)."""
+    out = []
+    full = tier != "quick"
+    layouts = [("v2", 10, [_B(0, 2)], [_B(3, 4), _B(5, 6), _B(7, 7), _B(8, 9)])]
+    layouts.append(("v1", 2, [_B(o, o, [o], "v1") for o in range(3)], [_B(3, 4, [3, 4], "v1w", 1), _B(5, 6, [5, 6], "v1w", 2), _B(7, 7, [7], "v1"), _B(8, 9, [8, 9], "v1w", 1)]))
+    if full:
+        layouts.append(("v2h", 5, [_B(0, 2, [0, 2])], [_B(3, 5, [3, 5], "v2", 2), _B(6, 7, [7]), _B(8, 8), _B(9, 10, [9, 10], "v2", 4)]))
+    for lname, fv, log, A in layouts:
+        nrec = lambda k: sum(len(b["present"]) for b in A[:k])
+        for how in ("init", "mid"):
+            gen = 0 if how == "init" else 1
+            pre = [] if how == "init" else [{"op": "fetch", "n": 1}, {"op": "sleep", "ms": 20}, {"op": "setoffset", "o": -1}]
+            base = {"log": log, "logStart": 0, "start": -1 if how == "init" else -2, "fetchVersion": fv, "maxBytes": 1 << 20}
+            faults = ("err6", "err3", "cut0", "cut1", "leader", "err5") if (full or lname == "v2") else ("err6", "cut0")
+            for f in faults:
+                for qc in ((1, 100) if full else (1,)):
+                    sid = "%s-%s-%s-q%d" % (lname, how, f, qc)
+                    x = 1 if f == "err5" else 0       # the call that gets the broker's error
+                    # the fault hits the first fetch of the positioned reader, the log grows at that very moment
+                    out.append(dict(base, id="P-f1-" + sid, qcap=qc, on=[_trig("fetch", f, A[0], k=1, gen=gen), _trig("fetch", None, A[1], k=2, gen=gen)],
+                                    steps=pre + [{"op": "fetch", "n": nrec(2) + x}]))
+                    # the log grows right after the position was resolved (while reader.initialize seeks), then the fault
+                    for lk in ((3, 4) if full else (3,)):
+                        out.append(dict(base, id="P-l%d-%s" % (lk, sid), qcap=qc,
+                                        on=[_trig("list", None, A[0], k=lk, gen=gen), _trig("fetch", f, None, k=1, gen=gen), _trig("fetch", None, A[1], k=2, gen=gen)],
+                                        steps=pre + [{"op": "fetch", "n": nrec(2) + x}]))
+                    if f == "cut1" and not full:
+                        continue
+                    # an empty poll first, the fault on the 2nd (k-th) fetch together with the append
+                    for fk in ((2, 3) if full else (2,)):
+                        out.append(dict(base, id="P-f%d-%s" % (fk, sid), qcap=qc, on=[_trig("fetch", f, A[0], k=fk, gen=gen), _trig("fetch", None, A[1], k=fk + 1, gen=gen)],
+                                        steps=pre + [{"op": "fetch", "n": nrec(2) + x}]))
+            # two faults in a row before the first delivery, the log growing at each
+            for f1, f2 in ((("err6", "err3"), ("cut0", "err6"), ("leader", "cut0"), ("err3", "leader")) if full else (("err6", "err3"), ("cut0", "err6"))):
+                t2 = _trig("fetch", f2, A[1], k=2, gen=gen)
+                if f1 == "leader" and f2 == "leader":
+                    continue
+                if f2 == "leader":
+                    t2["leader"] = 1 if f1 == "leader" else 2
+                out.append(dict(base, id="P-twice-%s-%s-%s-%s" % (lname, how, f1, f2), qcap=1,
+                                on=[_trig("fetch", f1, A[0], k=1, gen=gen), t2, _trig("fetch", None, A[2], k=3, gen=gen)],
+                                steps=pre + [{"op": "fetch", "n": nrec(3)}]))
+            # controls: the log grows before / while the end of the log is asked for (what was appended is before the position)
+            for lk in (1, 2):
+                out.append(dict(base, id="P-ctl-l%d-%s-%s" % (lk, lname, how), qcap=1,
+                                on=[_trig("list", None, A[0], k=lk, gen=gen), _trig("fetch", "err6", A[1], k=1, gen=gen), _trig("fetch", None, A[2], k=2, gen=gen)],
+                                steps=pre + [{"op": "fetch", "n": nrec(3) - nrec(1)}]))
+    # reconnects in the middle of a run, after deliveries, the log growing in between: the triggers are tied to the offset asked for
+    for lname, fv, log, A in layouts:
+        nrec = lambda k: sum(len(b["present"]) for b in A[:k])
+        for start in (-1, -2, 1):
+            n0 = 0 if start == -1 else len([o for b in log for o in b["present"] if o >= max(start, 0)])
+            for f in (("err6", "err3", "cut0", "cut1", "leader", "err5") if (full or lname == "v2") else ("err3", "leader")):
+                for qc, mb in (((1, 1), (100, 1 << 20), (2, 1 << 20)) if full else ((1, 1 << 20),)):
+                    if fv < 3:
+                        mb = 1 << 20
+                    a0, a1, a2 = A[0]["base"], A[1]["base"], A[2]["base"]
+                    out.append({"id": "Q-%s-s%d-%s-q%d-m%d" % (lname, start, f, qc, mb), "log": log, "logStart": 0, "start": start, "qcap": qc, "fetchVersion": fv, "maxBytes": mb,
+                                "on": [_trig("fetch", None, A[0], off=a0), _trig("fetch", f, A[1], off=a1), _trig("fetch", None, A[2], off=a2)],
+                                "steps": [{"op": "fetch", "n": n0 + nrec(3) + (1 if f == "err5" else 0)}]})
+            for f1, f2 in ((("err6", "cut0"), ("cut1", "err3"), ("err3", "err6")) if full else (("err6", "cut0"),)):
+                out.append({"id": "Q-twice-%s-s%d-%s-%s" % (lname, start, f1, f2), "log": log, "logStart": 0, "start": start, "qcap": 1, "fetchVersion": fv, "maxBytes": 1 << 20,
+                            "on": [_trig("fetch", None, A[0], off=A[0]["base"]), _trig("fetch", f1, A[1], off=A[1]["base"]), _trig("fetch", f2, A[2], off=A[2]["base"]),
+                                   _trig("fetch", None, A[3], off=A[3]["base"])],
+                            "steps": [{"op": "fetch", "n": n0 + nrec(4)}]})
+    return out
+
+
+def donectx_scripts(tier):
+    """Application calls whose context is already done (cancelled before the call, or a deadline that has passed) while messages
+    are queued, interleaved with ordinary calls: such a call either returns a message (delivered) or the context's error
+    (then it delivered nothing and consumed nothing: the next delivery continues where the last one ended)."""
+    out = []
+    full = tier != "quick"
+    logs = [("v2", 10, [_B(0, 2), _B(3, 5, [3, 5]), _B(6, 9, None, "v2", 2), _B(10, 13)])]
+    if full:
+        logs.append(("v1", 2, [_B(o, o, [o], "v1") for o in range(5)] + [_B(5, 8, [5, 6, 8], "v1w", 1), _B(9, 12, [9, 10, 11, 12], "v1w", 2)]))
+    combos = [(d, e, q, a) for d in ("cancel", "deadline") for e in (1, 2, 3) for q in (1, 2, 100) for a in ("fetch", "read")]
+    if not full:
+        combos = [c for i, c in enumerate(combos) if i % 3 == (i // 6) % 3]       # 12 of the 36, every value of every field
+    for lname, fv, log in logs:
+        total = sum(len(b["present"]) for b in log)
+        for d, e, q, a in combos:
+            base = {"log": log, "logStart": 0, "start": -2, "qcap": q, "fetchVersion": fv, "maxBytes": 1 << 20}
+            sid = "%s-%s-e%d-q%d-%s" % (lname, d, e, q, a)
+            burst = {"op": "fetch", "done": d, "every": e, "pause": 12, "api": a}
+            out.append(dict(base, id="X-" + sid, steps=[{"op": "fetch", "n": 1}, dict(burst, n=total - 3), {"op": "fetch", "n": 2, "api": a}]))
+        for d in ("cancel", "deadline"):
+            base = {"log": log, "logStart": 0, "start": -2, "fetchVersion": fv, "maxBytes": 1 << 20}
+            # the very first call (it starts the background reader) has a done context
+            out.append(dict(base, id="X-first-%s-%s" % (lname, d), qcap=100, steps=[{"op": "fetch", "n": 4, "done": d, "every": 1, "pause": 15}, {"op": "fetch", "n": total - 4}]))
+            # done calls around SetOffset: messages of the superseded reader are still queued
+            o = log[2]["base"] + 1
+            rest = len([x for b in log for x in b["present"] if x >= o])
+            out.append(dict(base, id="X-setoffset-%s-%s" % (lname, d), qcap=100,
+                            steps=[{"op": "fetch", "n": 1}, {"op": "fetch", "n": 3, "done": d, "every": 2, "pause": 15}, {"op": "setoffset", "o": o},
+                                   {"op": "fetch", "n": rest - 1, "done": d, "every": 1, "pause": 10}, {"op": "fetch", "n": 1}]))
+            # ... and with a reconnect in the middle
+            out.append(dict(base, id="X-fault-%s-%s" % (lname, d), qcap=2, on=[_trig("fetch", "err6", None, off=log[2]["base"])],
+                            steps=[{"op": "fetch", "n": 2}, {"op": "fetch", "n": total - 3, "done": d, "every": 2, "pause": 12}, {"op": "fetch", "n": 1}]))
+    return out
+
+
+def gen_pos_script(rng, sid):
+    """Seeded mixture of the two families: random layouts of the appended batches (holes, codecs), random start, random
+    reconnect-forcing faults tied to fetch offsets / request counts, bursts of done-context calls."""
+    n0 = rng.randint(1, 4)
+    log = [_B(0, n0 - 1)] if rng.random() < 0.5 else [_B(0, n0 - 1, [o for o in range(n0) if o == n0 - 1 or rng.random() < 0.7], "v2", rng.choice([0, 1, 2, 3, 4]))]
+    off = n0
+    A = []
+    for _ in range(rng.randint(2, 4)):
+        size = rng.randint(1, 3)
+        pres = [o for o in range(off, off + size) if rng.random() < 0.8] or [off + size - 1]
+        A.append(_B(off, off + size - 1, pres, "v2", rng.choice([0, 0, 1, 2, 3, 4])))
+        off += size
+    start = rng.choice([-1, -1, -1, -2, rng.randint(0, n0)])
+    faults = lambda: rng.choice(["err6", "err3", "cut0", "cut1", "leader", "err5", {"kind": "err", "code": 7}, {"kind": "trunc", "batches": 0, "records": 1, "extra": 5}, None])
+    on, moved = [], False
+    if start == -1 and rng.random() < 0.7:
+        # before the first delivery, by request count
+        k = rng.choice([1, 1, 2])
+        where = rng.choice(["fetch", "list3", "list4"])
+        f = faults()
+        moved = f == "leader"
+        if where == "fetch":
+            on.append(_trig("fetch", f, A[0], k=k))
+        else:
+            on.append(_trig("list", None, A[0], k=int(where[4])))
+            on.append(_trig("fetch", f, None, k=k))
+        rest = A[1:]
+        for i, b in enumerate(rest):
+            f = faults() if rng.random() < 0.4 else None
+            if f == "leader":
+                if moved:
+                    f = "err6"
+                moved = True
+            on.append(_trig("fetch", f, b, off=b["base"]))
+    else:
+        for b in A:
+            f = faults() if rng.random() < 0.6 else None
+            if f == "leader":
+                if moved:
+                    f = "err3"
+                moved = True
+            on.append(_trig("fetch", f, b, off=b["base"]))
+    lo = n0 if start == -1 else max(start, 0)
+    total = len([o for b in log + A for o in b["present"] if o >= lo]) + len([t for t in on if t.get("fault") == RECONNECT["err5"]])
+    steps = []
+    if rng.random() < 0.5 and total > 2:
+        k = rng.randint(1, total - 1)
+        steps.append({"op": "fetch", "n": k, "done": rng.choice(["cancel", "deadline"]), "every": rng.randint(1, 3), "pause": rng.choice([0, 5, 12]),
+                      "api": rng.choice(["fetch", "read"])})
+        total -= k
+    steps.append({"op": "fetch", "n": total})
+    fv = rng.choice([5, 10, 10])
+    return {"id": sid, "log": log, "logStart": 0, "start": start, "qcap": rng.choice([1, 1, 2, 100]), "fetchVersion": fv,
+            "maxBytes": rng.choice([1, 1 << 20, 1 << 20]), "on": on, "steps": steps}
+
+
+def pos_scripts(seed, tier):
+    rng = random.Random(seed * 32452843 + 11)
+    n = 60 if tier == "quick" else 3000
+    return positioned_scripts(tier) + donectx_scripts(tier) + [gen_pos_script(rng, "RP%d-%d" % (seed, k)) for k in range(n)]
+
+
 def cut_scripts(tier):
     """C17, Reader half: the connection is lost after k whole batches + r records + e bytes of a fetch response (every record
     boundary, inside records, inside batch headers), for record batches (every codec) and v0/v1 message sets; the Reader goes on
@@ -351,26 +546,71 @@ def conformance(ctx, traces):
 def model_check(ctx):
     d = ctx.specdir(ENGINE)
     cfg = "MC_quick.cfg" if ctx.tier == "quick" else "MC_full.cfg"
-    r = ctx.tlc(ENGINE, "MCFetchLog", cfg, workers=16, timeout=1500)
+    # vacuity guards: the model with each of these defects must be rejected (empty-batch position, a symbolic position
+    # resolved again after a reconnect, a reconnect that forgets the position reached, a done-context call that drops a message)
+    guards = ["MC_defect.cfg", "MC_defect_reresolve.cfg", "MC_defect_restart.cfg", "MC_defect_cancel.cfg"]
+    from concurrent.futures import ThreadPoolExecutor
+    with ThreadPoolExecutor(max_workers=5) as ex:
+        main = ex.submit(ctx.tlc, ENGINE, "MCFetchLog", cfg, workers=12, timeout=1500)
+        gr = [ex.submit(ctx.tlc, ENGINE, "MCFetchLog", g, workers=1, timeout=300) for g in guards]
+        r = main.result()
+        gr = [g.result() for g in gr]
     if r["violated"] or r["error"] or r["timeout"]:
         raise Inconclusive("model checking of FetchLog.tla did not pass: " + r["out"][-2000:])
-    r2 = ctx.tlc(ENGINE, "MCFetchLog", "MC_defect.cfg", workers=8, timeout=300)
-    if r2["violated"] != "C02_ExactStream":
-        raise Inconclusive("vacuity guard failed: the model with the empty-batch defect was not rejected")
-    return {"states": r["distinct"], "transitions": r["generated"], "mc_depth": r["depth"], "mc_config": cfg}
+    for g, r2 in zip(guards, gr):
+        if r2["violated"] != "C02_ExactStream":
+            raise Inconclusive("vacuity guard failed: the model with the defect of %s was not rejected" % g)
+    return {"states": r["distinct"], "transitions": r["generated"], "mc_depth": r["depth"], "mc_config": cfg, "defect_guards_rejected": guards}
 
 
 def run(ctx):
     cov = {"engine": "fetchlog"}
-    cov.update(model_check(ctx))
-    ctx.log("FetchLog MC ok: %d distinct states" % cov["states"])
+    # the model is checked while the driver runs the scripts (the driver mostly waits)
+    from concurrent.futures import ThreadPoolExecutor
+    mcpool = ThreadPoolExecutor(max_workers=1)
+    mc = mcpool.submit(model_check, ctx)
     scripts = gen_scripts(ctx.seed, 120 if ctx.tier == "quick" else 1500)
+    extra = pos_scripts(ctx.seed, ctx.tier)     # symbolic positions while the log grows + reconnects; calls with a done context
+    # the seeded scripts with several timed-out bursts (6 s each) run first, the short ones fill the tail
+    scripts = [x for x in scripts if x["id"].startswith("R")] + [x for x in scripts if not x["id"].startswith("R")] + extra
     traces = run_scripts(ctx, scripts, "main")
+    ctx.log("driver ran %d scripts (%d events)" % (len(scripts), sum(len(t) for t in traces)))
+    cov.update(mc.result())
+    mcpool.shutdown()
+    ctx.log("FetchLog MC ok: %d distinct states" % cov["states"])
     checked = monitor(ctx, scripts, traces, INVS)
+    ctx.log("monitor done: %d traces" % checked)
     accepted, divs = conformance(ctx, traces)
+    ctx.log("conformance done: %d accepted, %d diverged" % (accepted, len(divs)))
+    fam = {}
+    for sc, t in zip(scripts, traces):
+        f = fam.setdefault(sc["id"].split("-")[0] if sc["id"][0] in "PQX" else ("RP" if sc["id"].startswith("RP") else "D+R"),
+                           {"scripts": 0, "reconnects_before_first_delivery": 0, "reconnects_after_deliveries": 0, "done_calls": 0,
+                            "done_calls_refused": 0, "appends": 0, "appends_before_first_delivery": 0})
+        f["scripts"] += 1
+        seen_msg, lost = False, None      # lost: the connection whose fetch was answered with a reconnect-forcing fault
+        for e in t:
+            if e["ev"] in ("setoffset.end", "cfg"):
+                seen_msg, lost = False, None
+            elif e["ev"] == "msg":
+                seen_msg = True
+            elif e["ev"] == "fetch":
+                if lost is not None and e["conn"] != lost:
+                    f["reconnects_after_deliveries" if seen_msg else "reconnects_before_first_delivery"] += 1
+                    lost = None
+                if e["kind"] in ("cut", "shorthdr") or (e["kind"] == "err" and e["code"] in (3, 6)):
+                    lost = e["conn"]
+            elif e["ev"] == "call" and e.get("done"):
+                f["done_calls"] += 1
+            elif e["ev"] == "ctxerr":
+                f["done_calls_refused"] += 1
+            elif e["ev"] == "append":
+                f["appends"] += 1
+                f["appends_before_first_delivery"] += 0 if seen_msg else 1
+    cov["families"] = fam
     cov.update({"traces_validated_against_impl": accepted, "traces_monitored": checked, "scripts": len(scripts),
                 "trace_events": sum(len(t) for t in traces), "divergence_count": len(divs), "divergences": divs[:10], "invariants": INVS,
-                "samples": [{"script": scripts[0]}, {"script": scripts[-1]}, {"trace_head": traces[-1][:10]}]})
+                "samples": [{"script": scripts[0]}, {"script": extra[0]}, {"script": scripts[-1]}, {"trace_head": traces[-1][:10]}]})
     if divs:
         ctx.notes.append("DIVERGENCE: %d trace(s) of the real Reader are not behaviours of FetchLog.tla" % len(divs))
         print("DIVERGENCE property=C02 traces=%d first=%s" % (len(divs), json.dumps(divs[0])[:300]), flush=True)
